@@ -671,6 +671,15 @@ def reference(node, env=None, cmode=False, margin=1e-9, dps=50, mag=280, kappa_m
                 if eq_ > lim and any(isinstance(nodes[w][0], str) and nodes[w][0] in DISCONT_HEADS
                                      for w in par.get(q, ()) if w in nodes):
                     raise Unjudgeable("ill_conditioned:uncertain_input_of_discontinuous_node")
+            # every node's own value must be well-conditioned: the single-point finite differences (step 2^-30)
+            # are only a valid first-order model while no intermediate value is already noise at that scale
+            # (cos(2**64+1) is; a bounded downstream function such as atan would hide it from E)
+            for q, eq_ in Enode.items():
+                vq = ev.cache.get(q)
+                if vq is None or isinstance(vq, bool):
+                    continue
+                if eq_ > kappa_max * max(abs(vq), mpf(10) ** -3):
+                    raise Unjudgeable("ill_conditioned:intermediate_node")
             r = Ref()
             r.value = +base
             r.E = +E
